@@ -1,4 +1,9 @@
 ---- MODULE PageSelectMC ----
 EXTENDS PageSelect, Json
 Emit == PrintT(ToJson([calls |-> calls, n |-> N, expected |-> Expected(calls)]))
+\* the same selections under every combination of per-page options: the expected pages do not depend on the
+\* options, and the result of page p under options o is whatever the whole document gives for page p under o
+CONSTANT OptSets
+OptSetsMC == { <<>>, <<"xh">>, <<"xf">>, <<"xhf">>, <<"col">>, <<"join">>, <<"layout">>, <<"xh", "col">>, <<"xhf", "join">>, <<"xf", "layout">> }
+EmitO == \A o \in OptSets : PrintT(ToJson([calls |-> calls, n |-> N, opts |-> o, expected |-> Expected(calls)]))
 ====
